@@ -247,8 +247,10 @@ func (gs GenesisState) ValidateOperatorAssets(tokensTotalStaking map[string]math
 			// check that the asset is registered
 			// no need to check for the validity of the assetID, since
 			// an invalid assetID cannot be in the tokens map.
+			// the pools of the native token are written by x/delegation for MsgDelegation although the
+			// native token is not (necessarily) listed in tokens: there is no total to compare with then.
 			totalStaking, ok := tokensTotalStaking[asset.AssetID]
-			if !ok {
+			if !ok && asset.AssetID != ExocoreAssetID {
 				return errorsmod.Wrapf(
 					ErrInvalidGenesisData,
 					"unknown assetID for operator assets %s: %s",
@@ -256,7 +258,7 @@ func (gs GenesisState) ValidateOperatorAssets(tokensTotalStaking map[string]math
 				)
 			}
 			// the sum amount of operators shouldn't be greater than the total staking amount of this asset
-			if asset.Info.TotalAmount.Add(asset.Info.PendingUndelegationAmount).GT(totalStaking) {
+			if ok && asset.Info.TotalAmount.Add(asset.Info.PendingUndelegationAmount).GT(totalStaking) {
 				return errorsmod.Wrapf(
 					ErrInvalidGenesisData,
 					"operator's sum amount exceeds the total staking amount for %s: %+v",
